@@ -1,5 +1,954 @@
-//! Pure-function probes.
-use std::io::Write;
-pub fn main(_args: &[String], out: &mut impl Write) {
-    writeln!(out, "todo").unwrap();
+//! Pure-function probes: `epdh pure <queryfile>`.
+//!
+//! Reads one query per line and prints, for every query, the line `? <query>` followed by its
+//! answer line(s), computed by calling the REAL crate.  ocaml/pure.ml answers the same queries from
+//! the extracted Coq model (coq/Pure/*.v); tools/pure.py generates the queries and diffs the two
+//! outputs.  The query language is documented in tools/pure.py.
+//!
+//! Conventions shared with ocaml/pure.ml (hand-written glue on both sides, nothing model-derived):
+//!  * a panic of the crate (caught with catch_unwind) is answered `PANIC`;
+//!  * sweeps print one line per group of evaluations with two polynomial hashes over the sequence of
+//!    answer numbers (`Hs::push`), the number of evaluations and a few counters;
+//!  * colours are named black/white/chromatic/green/blue/red/yellow/orange/hiz, colour types
+//!    color/tri/oct, rotations 0/90/180/270.
+//!
+//! Buffer access for `setpix`: a `VarDisplay` works on a slice the harness owns.  `Display` has no
+//! public mutable accessor for its buffer; the harness locates the `buffer` field inside the struct
+//! at run time (address of `buffer()` minus address of the struct, bounds-checked) and writes
+//! bytes through a raw pointer derived from `&mut Display`.  Every byte of that field is a plain
+//! `u8`, so this is sound, and it never touches /repo.  It is used (a) to pre-fill the start
+//! patterns `z`/`f`/`r` and (b) to undo the bytes a probe changed.  Start images `d<colour>` are
+//! instead DRAWN through the public `set_pixel` (every pixel, Rotate0) on both sides.
+use embedded_graphics_core::pixelcolor::raw::{RawU1, RawU2, RawU4};
+use embedded_graphics_core::pixelcolor::{BinaryColor, PixelColor, Rgb555, Rgb565, Rgb888, RgbColor};
+use embedded_graphics_core::prelude::{OriginDimensions, Point, RawData};
+use embedded_graphics_core::Pixel;
+use epd_waveshare as ew;
+use ew::color::{Color, ColorType, OctColor, TriColor};
+use ew::graphics::{Display, DisplayRotation, VarDisplay};
+use ew::rect::Rect;
+use std::io::{BufRead, Write};
+use std::marker::PhantomData;
+use std::panic::{catch_unwind, AssertUnwindSafe};
+
+const P1: u64 = 2147483647;
+const B1: u64 = 257;
+const P2: u64 = 2147483629;
+const B2: u64 = 65599;
+/// numbers standing for PANIC / ERR inside hashed sequences
+const PANICV: u64 = 1000000007;
+const ERRV: u64 = 1000000009;
+
+#[derive(Default)]
+struct Hs {
+    h1: u64,
+    h2: u64,
+}
+impl Hs {
+    #[inline]
+    fn push(&mut self, v: u64) {
+        self.h1 = (self.h1 * B1 + v % P1 + 1) % P1;
+        self.h2 = (self.h2 * B2 + v % P2 + 1) % P2;
+    }
+}
+
+fn guard<T>(f: impl FnOnce() -> T) -> Option<T> {
+    catch_unwind(AssertUnwindSafe(f)).ok()
+}
+
+// ------------------------------------------------------------------ colours
+pub trait Col: ColorType + PixelColor + Copy + 'static {
+    const CT: &'static str;
+    fn all() -> &'static [Self];
+    fn names() -> &'static [&'static str];
+    fn idx(self) -> usize;
+    fn planes_d<const W: u32, const H: u32, const B: bool, const N: usize>(
+        _d: &Display<W, H, B, N, Self>,
+    ) -> Option<(usize, usize)> {
+        None
+    }
+    fn planes_v(_d: &VarDisplay<Self>) -> Option<(usize, usize)> {
+        None
+    }
+}
+impl Col for Color {
+    const CT: &'static str = "color";
+    fn all() -> &'static [Self] {
+        &[Color::Black, Color::White]
+    }
+    fn names() -> &'static [&'static str] {
+        &["black", "white"]
+    }
+    fn idx(self) -> usize {
+        match self {
+            Color::Black => 0,
+            Color::White => 1,
+        }
+    }
+}
+impl Col for TriColor {
+    const CT: &'static str = "tri";
+    fn all() -> &'static [Self] {
+        &[TriColor::Black, TriColor::White, TriColor::Chromatic]
+    }
+    fn names() -> &'static [&'static str] {
+        &["black", "white", "chromatic"]
+    }
+    fn idx(self) -> usize {
+        match self {
+            TriColor::Black => 0,
+            TriColor::White => 1,
+            TriColor::Chromatic => 2,
+        }
+    }
+    fn planes_d<const W: u32, const H: u32, const B: bool, const N: usize>(
+        d: &Display<W, H, B, N, Self>,
+    ) -> Option<(usize, usize)> {
+        Some((d.bw_buffer().len(), d.chromatic_buffer().len()))
+    }
+    fn planes_v(d: &VarDisplay<Self>) -> Option<(usize, usize)> {
+        Some((d.bw_buffer().len(), d.chromatic_buffer().len()))
+    }
+}
+impl Col for OctColor {
+    const CT: &'static str = "oct";
+    fn all() -> &'static [Self] {
+        &[
+            OctColor::Black,
+            OctColor::White,
+            OctColor::Green,
+            OctColor::Blue,
+            OctColor::Red,
+            OctColor::Yellow,
+            OctColor::Orange,
+            OctColor::HiZ,
+        ]
+    }
+    fn names() -> &'static [&'static str] {
+        &["black", "white", "green", "blue", "red", "yellow", "orange", "hiz"]
+    }
+    fn idx(self) -> usize {
+        match self {
+            OctColor::Black => 0,
+            OctColor::White => 1,
+            OctColor::Green => 2,
+            OctColor::Blue => 3,
+            OctColor::Red => 4,
+            OctColor::Yellow => 5,
+            OctColor::Orange => 6,
+            OctColor::HiZ => 7,
+        }
+    }
+}
+fn cname<C: Col>(c: C) -> &'static str {
+    C::names()[c.idx()]
+}
+
+fn rot_of(s: &str) -> DisplayRotation {
+    match s {
+        "0" => DisplayRotation::Rotate0,
+        "90" => DisplayRotation::Rotate90,
+        "180" => DisplayRotation::Rotate180,
+        "270" => DisplayRotation::Rotate270,
+        _ => panic!("rotation {}", s),
+    }
+}
+const ROTS: [&str; 4] = ["0", "90", "180", "270"];
+
+/// bits per pixel per plane / planes of a colour type name: the DOCUMENTED formula, used only to
+/// choose slice lengths in `var_sweep` (same constants in ocaml/pure.ml)
+fn doc_req(ct: &str, w: u64, h: u64) -> u64 {
+    let (bpp, planes) = match ct {
+        "color" => (1, 1),
+        "tri" => (1, 2),
+        "oct" => (4, 1),
+        _ => panic!("ct {}", ct),
+    };
+    planes * h * ((w * bpp + 7) / 8)
+}
+
+// ------------------------------------------------------------------ set_pixel targets
+trait Tgt {
+    fn ncol(&self) -> usize;
+    fn col_name(&self, i: usize) -> &'static str;
+    fn dims(&self) -> (u32, u32);
+    fn buf(&self) -> &[u8];
+    fn poke(&mut self, i: usize, v: u8);
+    /// set rotation, then set_pixel; false = panicked
+    fn set(&mut self, rot: DisplayRotation, ci: usize, px: i32, py: i32) -> bool;
+    fn size(&mut self, rot: DisplayRotation) -> (u32, u32);
+    fn info(&mut self) -> String;
+    fn fresh(&self) -> Box<dyn Tgt>;
+}
+
+struct DT<const W: u32, const H: u32, const B: bool, const N: usize, C: Col>(Box<Display<W, H, B, N, C>>);
+
+fn mk<const W: u32, const H: u32, const B: bool, const N: usize, C: Col>(
+    d: Box<Display<W, H, B, N, C>>,
+) -> Box<dyn Tgt> {
+    Box::new(DT(d))
+}
+
+impl<const W: u32, const H: u32, const B: bool, const N: usize, C: Col> Tgt for DT<W, H, B, N, C> {
+    fn ncol(&self) -> usize {
+        C::all().len()
+    }
+    fn col_name(&self, i: usize) -> &'static str {
+        C::names()[i]
+    }
+    fn dims(&self) -> (u32, u32) {
+        (W, H)
+    }
+    fn buf(&self) -> &[u8] {
+        self.0.buffer()
+    }
+    fn poke(&mut self, i: usize, v: u8) {
+        let len = self.0.buffer().len();
+        let base = &*self.0 as *const Display<W, H, B, N, C> as usize;
+        let bp = self.0.buffer().as_ptr() as usize;
+        let sz = std::mem::size_of::<Display<W, H, B, N, C>>();
+        assert!(bp >= base && bp + len <= base + sz && i < len, "buffer not inside the Display struct");
+        let off = bp - base;
+        let p = &mut *self.0 as *mut Display<W, H, B, N, C> as *mut u8;
+        // SAFETY: in-bounds byte of the `[u8; N]` field of a struct we hold exclusively.
+        unsafe { p.add(off + i).write(v) };
+    }
+    fn set(&mut self, rot: DisplayRotation, ci: usize, px: i32, py: i32) -> bool {
+        let c = C::all()[ci];
+        let d = &mut self.0;
+        guard(|| {
+            d.set_rotation(rot);
+            d.set_pixel(Pixel(Point::new(px, py), c));
+        })
+        .is_some()
+    }
+    fn size(&mut self, rot: DisplayRotation) -> (u32, u32) {
+        self.0.set_rotation(rot);
+        let s = self.0.size();
+        (s.width, s.height)
+    }
+    fn info(&mut self) -> String {
+        let d = Box::<Display<W, H, B, N, C>>::default();
+        let zero = d.buffer().iter().all(|&b| b == 0);
+        let s = d.size();
+        let planes = match C::planes_d(&d) {
+            Some((a, b)) => format!("{} {}", a, b),
+            None => "- -".to_string(),
+        };
+        // the VarDisplay of the same geometry over a slice of BYTECOUNT bytes
+        let mut v = vec![0u8; d.buffer().len()];
+        let var = match VarDisplay::<C>::new(W, H, &mut v, B) {
+            Ok(vd) => format!("{}", vd.buffer().len()),
+            Err(_) => "ERR".to_string(),
+        };
+        format!(
+            "{} {} {} {} {} {} {} {} {} {}",
+            W,
+            H,
+            B as u8,
+            d.buffer().len(),
+            C::CT,
+            zero as u8,
+            s.width,
+            s.height,
+            planes,
+            var
+        )
+    }
+    fn fresh(&self) -> Box<dyn Tgt> {
+        mk(Box::<Display<W, H, B, N, C>>::default())
+    }
+}
+
+struct VT<C: Col> {
+    w: u32,
+    h: u32,
+    bwr: bool,
+    data: Vec<u8>,
+    _c: PhantomData<C>,
+}
+impl<C: Col> VT<C> {
+    /// slice of exactly the length `buffer()` reports; None if the crate then rejects it
+    fn make(w: u32, h: u32, bwr: bool) -> Option<Box<dyn Tgt>> {
+        let mut big = vec![0u8; (doc_req(C::CT, w as u64, h as u64) * 2 + 64) as usize];
+        let len = VarDisplay::<C>::new(w, h, &mut big, bwr).ok()?.buffer().len();
+        let mut data = vec![0u8; len];
+        VarDisplay::<C>::new(w, h, &mut data, bwr).ok()?;
+        Some(Box::new(VT::<C> { w, h, bwr, data, _c: PhantomData }))
+    }
+}
+impl<C: Col> Tgt for VT<C> {
+    fn ncol(&self) -> usize {
+        C::all().len()
+    }
+    fn col_name(&self, i: usize) -> &'static str {
+        C::names()[i]
+    }
+    fn dims(&self) -> (u32, u32) {
+        (self.w, self.h)
+    }
+    fn buf(&self) -> &[u8] {
+        &self.data
+    }
+    fn poke(&mut self, i: usize, v: u8) {
+        self.data[i] = v;
+    }
+    fn set(&mut self, rot: DisplayRotation, ci: usize, px: i32, py: i32) -> bool {
+        let c = C::all()[ci];
+        let (w, h, bwr) = (self.w, self.h, self.bwr);
+        let data = &mut self.data;
+        guard(|| {
+            let mut d = VarDisplay::<C>::new(w, h, &mut data[..], bwr).unwrap();
+            d.set_rotation(rot);
+            d.set_pixel(Pixel(Point::new(px, py), c));
+        })
+        .is_some()
+    }
+    fn size(&mut self, rot: DisplayRotation) -> (u32, u32) {
+        let mut d = VarDisplay::<C>::new(self.w, self.h, &mut self.data[..], self.bwr).unwrap();
+        d.set_rotation(rot);
+        let s = d.size();
+        (s.width, s.height)
+    }
+    fn info(&mut self) -> String {
+        String::new()
+    }
+    fn fresh(&self) -> Box<dyn Tgt> {
+        Box::new(VT::<C> { w: self.w, h: self.h, bwr: self.bwr, data: vec![0u8; self.data.len()], _c: PhantomData })
+    }
+}
+
+fn make_alias(name: &str) -> Option<Box<dyn Tgt>> {
+    Some(match name {
+        "epd1in02" => mk(Box::<ew::epd1in02::Display1in02>::default()),
+        "epd1in54" => mk(Box::<ew::epd1in54::Display1in54>::default()),
+        "epd1in54_v2" => mk(Box::<ew::epd1in54_v2::Display1in54>::default()),
+        "epd1in54b" => mk(Box::<ew::epd1in54b::Display1in54b>::default()),
+        "epd1in54c" => mk(Box::<ew::epd1in54c::Display1in54c>::default()),
+        "epd2in13_v2" => mk(Box::<ew::epd2in13_v2::Display2in13>::default()),
+        "epd2in13b_v4" => mk(Box::<ew::epd2in13b_v4::Display2in13b>::default()),
+        "epd2in13bc" => mk(Box::<ew::epd2in13bc::Display2in13bc>::default()),
+        "epd2in66b" => mk(Box::<ew::epd2in66b::Display2in66b>::default()),
+        "epd2in7" => mk(Box::<ew::epd2in7::Display2in7>::default()),
+        "epd2in7_v2" => mk(Box::<ew::epd2in7_v2::Display2in7>::default()),
+        "epd2in7b" => mk(Box::<ew::epd2in7b::Display2in7b>::default()),
+        "epd2in9" => mk(Box::<ew::epd2in9::Display2in9>::default()),
+        "epd2in9_v2" => mk(Box::<ew::epd2in9_v2::Display2in9>::default()),
+        "epd2in9b_v4" => mk(Box::<ew::epd2in9b_v4::Display2in9b>::default()),
+        "epd2in9bc" => mk(Box::<ew::epd2in9bc::Display2in9bc>::default()),
+        "epd2in9d" => mk(Box::<ew::epd2in9d::Display2in9d>::default()),
+        "epd3in7" => mk(Box::<ew::epd3in7::Display3in7>::default()),
+        "epd4in2" => mk(Box::<ew::epd4in2::Display4in2>::default()),
+        "epd5in65f" => mk(Box::<ew::epd5in65f::Display5in65f>::default()),
+        "epd5in83_v2" => mk(Box::<ew::epd5in83_v2::Display5in83>::default()),
+        "epd5in83b_v2" => mk(Box::<ew::epd5in83b_v2::Display5in83>::default()),
+        "epd7in3f" => mk(Box::<ew::epd7in3f::Display7in3f>::default()),
+        "epd7in5" => mk(Box::<ew::epd7in5::Display7in5>::default()),
+        "epd7in5_hd" => mk(Box::<ew::epd7in5_hd::Display7in5>::default()),
+        "epd7in5_v2" => mk(Box::<ew::epd7in5_v2::Display7in5>::default()),
+        "epd7in5b_v2" => mk(Box::<ew::epd7in5b_v2::Display7in5>::default()),
+        _ => return None,
+    })
+}
+
+/// `alias:<name>` | `var:<ct>:<w>:<h>:<bwr>`
+fn make_target(spec: &str) -> Option<Box<dyn Tgt>> {
+    let p: Vec<&str> = spec.split(':').collect();
+    match p[0] {
+        "alias" => make_alias(p[1]),
+        "var" => {
+            let (w, h, bwr): (u32, u32, bool) = (p[2].parse().unwrap(), p[3].parse().unwrap(), p[4] == "1");
+            match p[1] {
+                "color" => VT::<Color>::make(w, h, bwr),
+                "tri" => VT::<TriColor>::make(w, h, bwr),
+                "oct" => VT::<OctColor>::make(w, h, bwr),
+                _ => panic!("ct {}", p[1]),
+            }
+        }
+        _ => panic!("target {}", spec),
+    }
+}
+
+/// One instance of the target per start pattern, plus the pristine copy of its buffer.
+struct Probe {
+    ts: Vec<(Box<dyn Tgt>, Vec<u8>)>,
+    changes: Vec<(usize, u8)>,
+}
+const CHUNK: usize = 2048;
+impl Probe {
+    fn new(spec: &str, pats: &str) -> Option<Probe> {
+        let first = make_target(spec)?;
+        let mut ts = Vec::new();
+        for p in pats.split(',') {
+            let mut t = first.fresh();
+            let len = t.buf().len();
+            match p.as_bytes()[0] {
+                b'z' | b'f' | b'r' => {
+                    let v = crate::world::gen_buf(len, p.as_bytes()[0] as char, 7);
+                    for (i, &b) in v.iter().enumerate() {
+                        if b != 0 {
+                            t.poke(i, b);
+                        }
+                    }
+                    assert!(t.buf() == &v[..], "pattern did not read back");
+                }
+                b'd' => {
+                    let ci = (0..t.ncol()).find(|&i| t.col_name(i) == &p[1..]).expect("drawn colour");
+                    let (w, h) = t.dims();
+                    for y in 0..h as i32 {
+                        for x in 0..w as i32 {
+                            if !t.set(DisplayRotation::Rotate0, ci, x, y) {
+                                return None;
+                            }
+                        }
+                    }
+                }
+                _ => panic!("pattern {}", p),
+            }
+            let pristine = t.buf().to_vec();
+            ts.push((t, pristine));
+        }
+        Some(Probe { ts, changes: Vec::new() })
+    }
+    /// Runs set_pixel on every start image; `f(pattern index, None = panic | Some(changed bytes))`.
+    /// Every image is restored afterwards.
+    fn run(&mut self, rot: DisplayRotation, ci: usize, px: i32, py: i32, mut f: impl FnMut(usize, Option<&[(usize, u8)]>)) {
+        for (k, (t, pristine)) in self.ts.iter_mut().enumerate() {
+            let ok = t.set(rot, ci, px, py);
+            self.changes.clear();
+            {
+                let b = t.buf();
+                assert!(b.len() == pristine.len());
+                for (j, (cb, cp)) in b.chunks(CHUNK).zip(pristine.chunks(CHUNK)).enumerate() {
+                    if cb != cp {
+                        for i in 0..cb.len() {
+                            if cb[i] != cp[i] {
+                                self.changes.push((j * CHUNK + i, cb[i]));
+                            }
+                        }
+                    }
+                }
+            }
+            for &(i, _) in self.changes.iter() {
+                t.poke(i, pristine[i]);
+            }
+            if ok {
+                f(k, Some(&self.changes));
+            } else {
+                f(k, None);
+            }
+        }
+    }
+}
+
+/// logical x coordinates probed on every row of a sweep (same list in ocaml/pure.ml)
+fn pxs(sw: i64, w: i64, h: i64) -> Vec<i32> {
+    let mut v: Vec<i64> = (-3..=sw + 3).collect();
+    let (mn, mx) = (i32::MIN as i64, i32::MAX as i64);
+    v.extend_from_slice(&[
+        mn, mn + 1, mn + w - 1, mn + w, mn + h - 1, mn + h, mx - h, mx - w, mx - 1, mx, w + h, 65535, 65536, -65536, -w, -h,
+    ]);
+    v.into_iter().map(|x| x as i32).collect()
+}
+
+/// `a,b,lo:hi:step,...`; a, lo, hi may be written `H`, `H-k`, `H+k` (H = height under the rotation)
+fn parse_ys(s: &str, hh: i64) -> Vec<i32> {
+    fn val(s: &str, hh: i64) -> i64 {
+        match s.strip_prefix('H') {
+            Some("") => hh,
+            Some(rest) => hh + rest.parse::<i64>().unwrap(),
+            None => s.parse().unwrap(),
+        }
+    }
+    let mut v = Vec::new();
+    for item in s.split(',') {
+        let p: Vec<&str> = item.split(':').collect();
+        if p.len() == 1 {
+            v.push(val(p[0], hh) as i32);
+        } else {
+            let (mut y, hi, step) = (val(p[0], hh), val(p[1], hh), val(p[2], hh));
+            while y <= hi {
+                v.push(y as i32);
+                y += step;
+            }
+        }
+    }
+    v
+}
+
+fn fmt_changes(r: Option<&[(usize, u8)]>) -> String {
+    match r {
+        None => "PANIC".to_string(),
+        Some(l) if l.is_empty() => "-".to_string(),
+        Some(l) => l.iter().map(|(i, b)| format!("{}:{}", i, b)).collect::<Vec<_>>().join(","),
+    }
+}
+
+fn q_setpix(t: &[&str], out: &mut impl Write) {
+    let pats = if t.len() > 6 { t[6] } else { "z,f,r" };
+    let mut pr = match Probe::new(t[1], pats) {
+        Some(p) => p,
+        None => {
+            writeln!(out, "= ERR").unwrap();
+            return;
+        }
+    };
+    let rot = rot_of(t[2]);
+    let ci = match (0..pr.ts[0].0.ncol()).find(|&i| pr.ts[0].0.col_name(i) == t[3]) {
+        Some(i) => i,
+        None => panic!("colour {}", t[3]),
+    };
+    let (px, py): (i32, i32) = (t[4].parse().unwrap(), t[5].parse().unwrap());
+    let mut parts = Vec::new();
+    pr.run(rot, ci, px, py, |_, r| parts.push(fmt_changes(r)));
+    let (sw, sh) = pr.ts[0].0.size(rot);
+    writeln!(out, "= {} size={}x{}", parts.join("|"), sw, sh).unwrap();
+}
+
+fn q_setpix_sweep(t: &[&str], out: &mut impl Write) {
+    let mut pr = match Probe::new(t[1], t[4]) {
+        Some(p) => p,
+        None => {
+            writeln!(out, "= ERR").unwrap();
+            return;
+        }
+    };
+    let rots: Vec<&str> = if t[2] == "all" { ROTS.to_vec() } else { t[2].split(',').collect() };
+    let (w, h) = pr.ts[0].0.dims();
+    let ncol = pr.ts[0].0.ncol();
+    for r in rots {
+        let rot = rot_of(r);
+        let (sw, sh) = pr.ts[0].0.size(rot);
+        let xs = pxs(sw as i64, w as i64, h as i64);
+        let ys = parse_ys(t[3], sh as i64);
+        for ci in 0..ncol {
+            let cn = pr.ts[0].0.col_name(ci);
+            for &py in &ys {
+                let mut hs = Hs::default();
+                let (mut nchg, mut npanic) = (0u64, 0u64);
+                for &px in &xs {
+                    let mut chg = false;
+                    let mut pan = false;
+                    pr.run(rot, ci, px, py, |_, r| match r {
+                        None => {
+                            hs.push(PANICV);
+                            pan = true;
+                        }
+                        Some(l) => {
+                            hs.push(l.len() as u64);
+                            for &(i, b) in l {
+                                hs.push(i as u64);
+                                hs.push(b as u64);
+                            }
+                            chg |= !l.is_empty();
+                        }
+                    });
+                    nchg += chg as u64;
+                    npanic += pan as u64;
+                }
+                hs.push(sw as u64);
+                hs.push(sh as u64);
+                writeln!(out, "L {} {} {} {} {} {} {} {}", r, cn, py, hs.h1, hs.h2, xs.len(), nchg, npanic).unwrap();
+            }
+        }
+    }
+}
+
+// ------------------------------------------------------------------ rect
+fn u(s: &str) -> u32 {
+    s.parse().unwrap()
+}
+fn rect_i(a: Rect, b: Rect) -> Option<(u32, u32, u32, u32, bool)> {
+    guard(|| {
+        let r = a.intersect(b);
+        (r.x, r.y, r.w, r.h, r.is_empty())
+    })
+}
+fn rect_s(a: Rect, dx: u32, dy: u32) -> Option<(u32, u32, u32, u32)> {
+    guard(|| {
+        let r = a.sub_offset(dx, dy);
+        (r.x, r.y, r.w, r.h)
+    })
+}
+
+/// `rect_sweep R ax ay [off]`: a = (off+ax, off+ay, aw, ah) for all aw, ah in 0..=R
+fn q_rect_sweep(t: &[&str], out: &mut impl Write) {
+    let r: u32 = u(t[1]);
+    let off: u32 = if t.len() > 4 { u(t[4]) } else { 0 };
+    let (ax, ay) = (off + u(t[2]), off + u(t[3]));
+    for aw in 0..=r {
+        for ah in 0..=r {
+            let a = Rect::new(ax, ay, aw, ah);
+            let mut hs = Hs::default();
+            let (mut n, mut npanic, mut nempty) = (0u64, 0u64, 0u64);
+            for bx in 0..=r {
+                for by in 0..=r {
+                    for bw in 0..=r {
+                        for bh in 0..=r {
+                            n += 1;
+                            match rect_i(a, Rect::new(off + bx, off + by, bw, bh)) {
+                                None => {
+                                    hs.push(PANICV);
+                                    npanic += 1;
+                                }
+                                Some((x, y, w, h, e)) => {
+                                    hs.push(x as u64);
+                                    hs.push(y as u64);
+                                    hs.push(w as u64);
+                                    hs.push(h as u64);
+                                    hs.push(e as u64);
+                                    nempty += e as u64;
+                                }
+                            }
+                        }
+                    }
+                }
+            }
+            writeln!(out, "I {} {} {} {} {} {} {} {} {}", ax, ay, aw, ah, hs.h1, hs.h2, n, npanic, nempty).unwrap();
+            let mut hs = Hs::default();
+            let (mut n, mut npanic) = (0u64, 0u64);
+            for dx in 0..=r {
+                for dy in 0..=r {
+                    n += 1;
+                    match rect_s(a, off + dx, off + dy) {
+                        None => {
+                            hs.push(PANICV);
+                            npanic += 1;
+                        }
+                        Some((x, y, w, h)) => {
+                            hs.push(x as u64);
+                            hs.push(y as u64);
+                            hs.push(w as u64);
+                            hs.push(h as u64);
+                        }
+                    }
+                }
+            }
+            writeln!(out, "S {} {} {} {} {} {} {} {}", ax, ay, aw, ah, hs.h1, hs.h2, n, npanic).unwrap();
+        }
+    }
+}
+
+// ------------------------------------------------------------------ sizing
+fn us(s: &str) -> usize {
+    s.parse().unwrap()
+}
+type VarNew = Option<Result<(usize, Option<(usize, usize)>), ()>>;
+fn var_new(ct: &str, w: u32, h: u32, slice: &mut [u8], bwr: bool) -> VarNew {
+    fn go<C: Col>(w: u32, h: u32, slice: &mut [u8], bwr: bool) -> VarNew {
+        guard(|| match VarDisplay::<C>::new(w, h, slice, bwr) {
+            Ok(d) => Ok((d.buffer().len(), C::planes_v(&d))),
+            Err(_) => Err(()),
+        })
+    }
+    match ct {
+        "color" => go::<Color>(w, h, slice, bwr),
+        "tri" => go::<TriColor>(w, h, slice, bwr),
+        "oct" => go::<OctColor>(w, h, slice, bwr),
+        _ => panic!("ct {}", ct),
+    }
+}
+
+fn q_var_sweep(t: &[&str], out: &mut impl Write) {
+    let ct = t[1];
+    let (wlo, whi, hmax): (u32, u32, u32) = (u(t[2]), u(t[3]), u(t[4]));
+    let mut store = vec![0u8; doc_req(ct, whi as u64, hmax as u64) as usize + 2];
+    for w in wlo..=whi {
+        let mut hs = Hs::default();
+        let (mut n, mut nok) = (0u64, 0u64);
+        for h in 0..=hmax {
+            let req = doc_req(ct, w as u64, h as u64) as usize;
+            let mut lens = vec![req, req + 1, 0];
+            if req > 0 {
+                lens.insert(0, req - 1);
+            }
+            for l in lens {
+                n += 1;
+                match var_new(ct, w, h, &mut store[..l], false) {
+                    None => hs.push(PANICV),
+                    Some(Err(())) => hs.push(ERRV),
+                    Some(Ok((len, planes))) => {
+                        hs.push(1);
+                        hs.push(len as u64);
+                        if let Some((a, b)) = planes {
+                            hs.push(a as u64);
+                            hs.push(b as u64);
+                        }
+                        nok += 1;
+                    }
+                }
+            }
+        }
+        writeln!(out, "V {} {} {} {} {} {}", ct, w, hs.h1, hs.h2, n, nok).unwrap();
+    }
+}
+
+// ------------------------------------------------------------------ colour
+fn rgb3<C: RgbColor>(c: C) -> String {
+    format!("{} {} {}", c.r(), c.g(), c.b())
+}
+fn onoff(b: BinaryColor) -> &'static str {
+    match b {
+        BinaryColor::On => "on",
+        BinaryColor::Off => "off",
+    }
+}
+
+fn color_table(out: &mut impl Write) {
+    let mut line = |name: String, v: Option<String>| {
+        writeln!(out, "T {} = {}", name, v.unwrap_or_else(|| "PANIC".to_string())).unwrap();
+    };
+    for &c in Color::all() {
+        let n = cname(c);
+        line(format!("color.get_bit_value {}", n), guard(|| c.get_bit_value().to_string()));
+        line(format!("color.get_byte_value {}", n), guard(|| c.get_byte_value().to_string()));
+        line(format!("color.inverse {}", n), guard(|| cname(c.inverse()).to_string()));
+        line(format!("raw_u1.from_color {}", n), guard(|| RawU1::from(c).into_inner().to_string()));
+        line(format!("color.raw_u1_roundtrip {}", n), guard(|| cname(Color::from(RawU1::from(c))).to_string()));
+        line(format!("rgb888.from_color {}", n), guard(|| rgb3(Rgb888::from(c))));
+        line(format!("rgb565.from_color {}", n), guard(|| rgb3(Rgb565::from(c))));
+        line(format!("rgb555.from_color {}", n), guard(|| rgb3(Rgb555::from(c))));
+        line(format!("color.rgb888_roundtrip {}", n), guard(|| cname(Color::from(Rgb888::from(c))).to_string()));
+        line(format!("color.rgb565_roundtrip {}", n), guard(|| cname(Color::from(Rgb565::from(c))).to_string()));
+        line(format!("color.rgb555_roundtrip {}", n), guard(|| cname(Color::from(Rgb555::from(c))).to_string()));
+    }
+    for v in 0..=255u8 {
+        line(format!("color.from_u8 {}", v), guard(|| cname(Color::from(v)).to_string()));
+    }
+    for v in 0..=255u8 {
+        line(format!("color.from_raw_u1 {}", v), guard(|| cname(Color::from(RawU1::new(v))).to_string()));
+    }
+    for b in [BinaryColor::On, BinaryColor::Off] {
+        line(format!("color.from_binary {}", onoff(b)), guard(|| cname(Color::from(b)).to_string()));
+        line(format!("tri.from_binary {}", onoff(b)), guard(|| cname(TriColor::from(b)).to_string()));
+        line(format!("oct.from_binary {}", onoff(b)), guard(|| cname(OctColor::from(b)).to_string()));
+    }
+    for &c in TriColor::all() {
+        let n = cname(c);
+        line(format!("tri.get_bit_value {}", n), guard(|| c.get_bit_value().to_string()));
+        line(format!("tri.get_byte_value {}", n), guard(|| c.get_byte_value().to_string()));
+        line(format!("rgb888.from_tri {}", n), guard(|| rgb3(Rgb888::from(c))));
+        line(format!("tri.rgb888_roundtrip {}", n), guard(|| cname(TriColor::from(Rgb888::from(c))).to_string()));
+    }
+    for v in 0..=255u8 {
+        line(format!("tri.from_raw_u2 {}", v), guard(|| cname(TriColor::from(RawU2::new(v))).to_string()));
+    }
+    for &c in OctColor::all() {
+        let n = cname(c);
+        line(format!("oct.get_nibble {}", n), guard(|| c.get_nibble().to_string()));
+        line(format!("oct.rgb {}", n), guard(|| {
+            let (r, g, b) = c.rgb();
+            format!("{} {} {}", r, g, b)
+        }));
+        line(format!("rgb888.from_oct {}", n), guard(|| rgb3(Rgb888::from(c))));
+        line(format!("oct.rgb888_roundtrip {}", n), guard(|| cname(OctColor::from(Rgb888::from(c))).to_string()));
+    }
+    for &a in OctColor::all() {
+        for &b in OctColor::all() {
+            line(
+                format!("oct.colors_byte {} {}", cname(a), cname(b)),
+                guard(|| OctColor::colors_byte(a, b).to_string()),
+            );
+        }
+    }
+    for v in 0..=255u8 {
+        line(format!("oct.from_nibble {}", v), guard(|| match OctColor::from_nibble(v) {
+            Ok(c) => cname(c).to_string(),
+            Err(_) => "ERR".to_string(),
+        }));
+    }
+    for v in 0..=255u8 {
+        line(format!("oct.split_byte {}", v), guard(|| match OctColor::split_byte(v) {
+            Ok((hi, lo)) => format!("{} {}", cname(hi), cname(lo)),
+            Err(_) => "ERR".to_string(),
+        }));
+    }
+    for v in 0..=255u8 {
+        line(format!("oct.from_raw_u4 {}", v), guard(|| cname(OctColor::from(RawU4::new(v))).to_string()));
+    }
+    line("ctype.bpp color".into(), guard(|| <Color as ColorType>::BITS_PER_PIXEL_PER_BUFFER.to_string()));
+    line("ctype.nbuf color".into(), guard(|| <Color as ColorType>::BUFFER_COUNT.to_string()));
+    line("ctype.bpp tri".into(), guard(|| <TriColor as ColorType>::BITS_PER_PIXEL_PER_BUFFER.to_string()));
+    line("ctype.nbuf tri".into(), guard(|| <TriColor as ColorType>::BUFFER_COUNT.to_string()));
+    line("ctype.bpp oct".into(), guard(|| <OctColor as ColorType>::BITS_PER_PIXEL_PER_BUFFER.to_string()));
+    line("ctype.nbuf oct".into(), guard(|| <OctColor as ColorType>::BUFFER_COUNT.to_string()));
+    fn bm<C: Col>(line: &mut impl FnMut(String, Option<String>)) {
+        for &c in C::all() {
+            for bwr in [false, true] {
+                for pos in bitmask_positions() {
+                    line(
+                        format!("bitmask {} {} {} {}", C::CT, cname(c), bwr as u8, pos),
+                        guard(|| {
+                            let (m, b) = c.bitmask(bwr, pos);
+                            format!("{} {}", m, b)
+                        }),
+                    );
+                }
+            }
+        }
+    }
+    bm::<Color>(&mut line);
+    bm::<TriColor>(&mut line);
+    bm::<OctColor>(&mut line);
+}
+fn bitmask_positions() -> Vec<u32> {
+    let mut v: Vec<u32> = (0..=15).collect();
+    v.extend_from_slice(&[121, 122, 127, 128, 879, 65535, 65536, 2147483647, 2147483648, 4294967294, 4294967295]);
+    v
+}
+
+fn from888(f: &str, r: u8, g: u8, b: u8) -> Option<usize> {
+    let p = Rgb888::new(r, g, b);
+    match f {
+        "color" => guard(|| Color::from(p).idx()),
+        "tri" => guard(|| TriColor::from(p).idx()),
+        "oct" => guard(|| OctColor::from(p).idx()),
+        _ => panic!("fn {}", f),
+    }
+}
+fn name_of(f: &str, i: Option<usize>) -> &'static str {
+    match i {
+        None => "PANIC",
+        Some(i) => match f {
+            "color" | "rgb565" | "rgb555" => Color::names()[i],
+            "tri" => TriColor::names()[i],
+            _ => OctColor::names()[i],
+        },
+    }
+}
+fn from565(r: u8, g: u8, b: u8) -> Option<usize> {
+    guard(|| Color::from(Rgb565::new(r, g, b)).idx())
+}
+fn from555(r: u8, g: u8, b: u8) -> Option<usize> {
+    guard(|| Color::from(Rgb555::new(r, g, b)).idx())
+}
+
+// ------------------------------------------------------------------ dispatcher
+fn answer(t: &[&str], out: &mut impl Write) {
+    match t[0] {
+        "rect_i" => {
+            let a = Rect::new(u(t[1]), u(t[2]), u(t[3]), u(t[4]));
+            let b = Rect::new(u(t[5]), u(t[6]), u(t[7]), u(t[8]));
+            match rect_i(a, b) {
+                Some((x, y, w, h, e)) => writeln!(out, "= {} {} {} {} {}", x, y, w, h, e as u8).unwrap(),
+                None => writeln!(out, "= PANIC").unwrap(),
+            }
+        }
+        "rect_s" => {
+            let a = Rect::new(u(t[1]), u(t[2]), u(t[3]), u(t[4]));
+            match rect_s(a, u(t[5]), u(t[6])) {
+                Some((x, y, w, h)) => writeln!(out, "= {} {} {} {}", x, y, w, h).unwrap(),
+                None => writeln!(out, "= PANIC").unwrap(),
+            }
+        }
+        "rect_sweep" => q_rect_sweep(t, out),
+        "buflen" => {
+            let (w, h) = (us(t[1]), us(t[2]));
+            match guard(|| ew::buffer_len(w, h)) {
+                Some(n) => writeln!(out, "= {}", n).unwrap(),
+                None => writeln!(out, "= PANIC").unwrap(),
+            }
+        }
+        "buflen_sweep" => {
+            let (wlo, whi, hmax) = (us(t[1]), us(t[2]), us(t[3]));
+            for w in wlo..=whi {
+                let mut hs = Hs::default();
+                for h in 0..=hmax {
+                    match guard(|| ew::buffer_len(w, h)) {
+                        Some(n) => hs.push(n as u64),
+                        None => hs.push(PANICV),
+                    }
+                }
+                writeln!(out, "B {} {} {} {}", w, hs.h1, hs.h2, hmax + 1).unwrap();
+            }
+        }
+        "alias" => match make_alias(t[1]) {
+            Some(mut a) => writeln!(out, "= {}", a.info()).unwrap(),
+            None => writeln!(out, "= UNKNOWN").unwrap(),
+        },
+        "var_new" => {
+            let (w, h, l) = (u(t[2]), u(t[3]), us(t[4]));
+            let bwr = t.len() > 5 && t[5] == "1";
+            let mut store = vec![0u8; l];
+            match var_new(t[1], w, h, &mut store, bwr) {
+                None => writeln!(out, "= PANIC").unwrap(),
+                Some(Err(())) => writeln!(out, "= ERR").unwrap(),
+                Some(Ok((n, None))) => writeln!(out, "= OK {}", n).unwrap(),
+                Some(Ok((n, Some((a, b))))) => writeln!(out, "= OK {} {} {}", n, a, b).unwrap(),
+            }
+        }
+        "var_sweep" => q_var_sweep(t, out),
+        "setpix" => q_setpix(t, out),
+        "setpix_sweep" => q_setpix_sweep(t, out),
+        "color_table" => color_table(out),
+        "rgb888" => {
+            let (r, g, b): (u8, u8, u8) = (t[2].parse().unwrap(), t[3].parse().unwrap(), t[4].parse().unwrap());
+            writeln!(out, "= {}", name_of(t[1], from888(t[1], r, g, b))).unwrap();
+        }
+        "rgb888_sweep" => {
+            let f = t[1];
+            let (rlo, rhi, step): (u32, u32, u32) = (u(t[2]), u(t[3]), u(t[4]));
+            let mut r = rlo;
+            while r <= rhi {
+                let mut hs = Hs::default();
+                let mut n = 0u64;
+                let mut g = 0;
+                while g <= 255 {
+                    let mut b = 0;
+                    while b <= 255 {
+                        n += 1;
+                        match from888(f, r as u8, g as u8, b as u8) {
+                            Some(i) => hs.push(i as u64),
+                            None => hs.push(PANICV),
+                        }
+                        b += step;
+                    }
+                    g += step;
+                }
+                writeln!(out, "C {} {} {} {} {}", f, r, hs.h1, hs.h2, n).unwrap();
+                r += step;
+            }
+        }
+        "rgb565" | "rgb555" => {
+            let (r, g, b): (u8, u8, u8) = (t[1].parse().unwrap(), t[2].parse().unwrap(), t[3].parse().unwrap());
+            let i = if t[0] == "rgb565" { from565(r, g, b) } else { from555(r, g, b) };
+            writeln!(out, "= {}", name_of(t[0], i)).unwrap();
+        }
+        "rgb565_sweep" | "rgb555_sweep" => {
+            let is565 = t[0] == "rgb565_sweep";
+            let gmax = if is565 { 63 } else { 31 };
+            for r in 0..=31u8 {
+                let mut hs = Hs::default();
+                let mut n = 0u64;
+                for g in 0..=gmax {
+                    for b in 0..=31u8 {
+                        n += 1;
+                        let i = if is565 { from565(r, g, b) } else { from555(r, g, b) };
+                        match i {
+                            Some(i) => hs.push(i as u64),
+                            None => hs.push(PANICV),
+                        }
+                    }
+                }
+                writeln!(out, "C {} {} {} {} {}", &t[0][..6], r, hs.h1, hs.h2, n).unwrap();
+            }
+        }
+        _ => writeln!(out, "= UNKNOWN-QUERY").unwrap(),
+    }
+}
+
+pub fn main(args: &[String], out: &mut impl Write) {
+    let path = args.last().expect("usage: epdh pure <queryfile>");
+    let f = std::fs::File::open(path).expect("query file");
+    let mut out = std::io::BufWriter::new(out);
+    for line in std::io::BufReader::new(f).lines() {
+        let line = line.unwrap();
+        let t: Vec<&str> = line.split_whitespace().collect();
+        if t.is_empty() || t[0].starts_with('#') {
+            continue;
+        }
+        writeln!(out, "? {}", t.join(" ")).unwrap();
+        answer(&t, &mut out);
+    }
+    out.flush().unwrap();
 }
